@@ -10,7 +10,7 @@ from simkit import tlv
 from simkit.findings import classifier
 
 
-def _drop_inside_definite(stream, threshold):
+def _drop_inside_definite(stream, threshold, limit=None):
     """Could CachingStreamWrapper drop (and renumber) its cache at a mark point that
     lies inside a definite-length TLV?  Pure framing arithmetic.  The decoder sets
     the mark at the start of every TLV it descends into and, for an untagged
@@ -18,15 +18,19 @@ def _drop_inside_definite(stream, threshold):
     more than `threshold` bytes are cached.  Which TLVs are descended into depends
     on the schema, which the scanner does not know, so both mark sets (starts only;
     starts and header ends) are simulated and either may hit."""
-    return _sim_marks(stream, threshold, False) or _sim_marks(stream, threshold, True)
+    if limit is None:
+        limit = len(stream)
+    return _sim_marks(stream, threshold, False, limit) or _sim_marks(stream, threshold, True, limit)
 
 
-def _sim_marks(stream, threshold, header_marks):
+def _sim_marks(stream, threshold, header_marks, limit):
     pos = 0
     base = [0]
     hit = [False]
 
     def mark(p, inside_definite):
+        if p > limit:
+            return      # the stream ended before this mark point
         if p - base[0] > threshold:
             base[0] = p
             if inside_definite:
@@ -50,24 +54,32 @@ def _sim_marks(stream, threshold, header_marks):
     return hit[0]
 
 
+def _context(mod, plan, viol):
+    """(kind, threshold, stream bytes, plan with the drop knob switched off)."""
+    if hasattr(mod, 'finding_context'):
+        return mod.finding_context(plan, viol)
+    conf = plan.get('config', {})
+    p2 = copy.deepcopy(plan)
+    p2['config']['threshold'] = 10 ** 9
+    return conf.get('kind'), conf.get('threshold'), _plan_stream(plan), None, p2
+
+
 @classifier('f6_cache_renumbering')
 def f6_cache_renumbering(mod, plan, viol):
     """F6: on a non-seekable stream the wrapper renumbers positions when it drops its
     cache at an element start, while enclosing definite-length frames still hold
     absolute positions."""
-    conf = plan.get('config', {})
-    if conf.get('kind') != 'pipe':
+    kind, thr, stream, limit, p2 = _context(mod, plan, viol)
+    if kind != 'pipe':
         return False
-    thr = conf.get('threshold')
     if thr is None:
         thr = 8192
-    stream = _plan_stream(plan)
-    if stream is None or not _drop_inside_definite(stream, thr):
+    if stream is None or not _drop_inside_definite(stream, thr, limit):
         return False
-    p2 = copy.deepcopy(plan)
-    p2['config']['threshold'] = 10 ** 9
     res = mod.execute(p2)
-    return res['status'] != 'violation'
+    if res['status'] != 'violation':
+        return True
+    return res['sig'] != viol['sig']
 
 
 def _plan_stream(plan):
